@@ -257,7 +257,67 @@ def rule_static_escape(chk, prog, tier):
     r.exhaustive = True
 
 
+# ------------------------------------------------------------------ C15.e the controlling expression
+
+def rule_controlling(chk, prog, tier):
+    r = chk.rule('C15.e', 'the controlling expression of a switch undergoes the integer promotions: the promoted expression (not the original) is evaluated and dispatched on, the case set records the promoted type, and non-integer controlling expressions are diagnosed', floor=8,
+                 oracle='C11 6.8.4.2p1,p5')
+    fn = prog.require_func('stmt', 'stmt.c')
+    for ty in ('char', 'uchar', 'short', 'ushort', 'int', 'uint', 'long', 'ulong', 'bool', 'double', 'ptr'):
+        def runner(it):
+            w = World(prog, it=it, target='x86_64-sysv')
+            T = {n: w.t(n) for n in ('char', 'uchar', 'short', 'ushort', 'int', 'uint', 'long', 'ulong', 'bool', 'double')}; T['ptr'] = w.mkptr(w.t('int'))
+            toks = ['TSWITCH', 'TLPAREN', 'X', 'TRPAREN', 'TSEMICOLON', 'TEOF']
+            tokobj = it.gobj('tok'); st = {'i': 0}
+            def load():
+                k = toks[min(st['i'], len(toks) - 1)]
+                tokobj.f[('kind',)] = ev(prog, 'TIDENT' if k == 'X' else k); tokobj.f[('lit',)] = None
+                tokobj.f[('loc', 'file')] = None; tokobj.f[('loc', 'line')] = 1; tokobj.f[('loc', 'col')] = 1
+            def nxt(i2, a, e): st['i'] += 1; load(); return None
+            def expect(i2, a, e):
+                if tokobj.f[('kind',)] != a[0] or toks[min(st['i'], len(toks) - 1)] == 'X': raise Terminal('error', 'expected token')
+                nxt(i2, a, e); return None
+            operand = w.mkexpr('EXPRIDENT', T[ty])
+            def expr(i2, a, e):
+                if toks[min(st['i'], len(toks) - 1)] != 'X': raise Terminal('error', 'expected expression')
+                nxt(i2, a, e); return operand
+            seen = {}
+            def funcexpr(i2, a, e):
+                seen['evaluated'] = a[1]; return cmodel.val('v')
+            def funcswitch(i2, a, e):
+                seen['switch'] = (a[1], i2.load(a[2].obj, a[2].path + ('type',))); return None
+            sc = Obj('scope', 'heap'); sc.f.update({('parent',): None, ('breaklabel',): None, ('continuelabel',): None, ('switchcases',): None, ('decls', 'len'): 0, ('tags', 'len'): 0})
+            F = Obj('func', 'heap'); b0 = Obj('block', 'heap'); b0.f[('jump', 'kind')] = 0; F.f[('end',)] = Ptr(b0, ())
+            it.models.update({'next': nxt, 'expect': expect, 'expr': expr, 'consume': lambda i2, a, e: 0, 'attr': lambda i2, a, e: 0, 'funcexpr': funcexpr, 'funcswitch': funcswitch, 'delexpr': lambda i2, a, e: None,
+                              'funcjmp': lambda i2, a, e: None, 'funclabel': lambda i2, a, e: None, 'mkblock': lambda i2, a, e: Ptr(Obj('block', 'heap'), ()), 'free': lambda i2, a, e: None, 'mapfree': lambda i2, a, e: None,
+                              'xmalloc': lambda i2, a, e: Ptr(Obj('heap@%s' % e.get('line'), 'heap'), ()),
+                              'error': lambda i2, a, e: (_ for _ in ()).throw(Terminal('error', cmodel.fmt_of(i2, a, 1))),
+                              'fatal': lambda i2, a, e: (_ for _ in ()).throw(Terminal('fatal', cmodel.fmt_of(i2, a, 0)))})
+            load()
+            it.call(fn, [Ptr(F, ()), Ptr(sc, ())])
+            ev_ = seen.get('evaluated')
+            def tyname(t):
+                return next((n for n, x in T.items() if x.obj is t.obj), '?')
+            x = ev_
+            casts = []
+            while x is not None and x.obj is not operand.obj and it.load(x.obj, ('kind',)) == ev(prog, 'EXPRCAST'):
+                casts.append(tyname(it.load(x.obj, ('type',)))); x = it.load(x.obj, ('base',))
+            return tyname(it.load(ev_.obj, ('type',))), x is not None and x.obj is operand.obj, tyname(seen['switch'][1]) if 'switch' in seen else None
+        runs = explore(prog, runner, {}, max_runs=4, on_unsupported='keep')
+        if len(runs) != 1 or runs[0].outcome == 'unsupported':
+            raise AnalysisBroken('stmt switch %s: %s' % (ty, runs[0].detail if runs else 'no run'))
+        run = runs[0]
+        key = 'switch-controlling:%s' % ty
+        if ty in ('double', 'ptr'):
+            r.instance(run.outcome == 'terminal:error', key, 'stmt.c:%s' % fn.get('line'), 'a non-integer controlling expression must be diagnosed; got %s' % (run.value if run.outcome == 'return' else run.outcome,)); continue
+        prom = {'char': 'int', 'uchar': 'int', 'short': 'int', 'ushort': 'int', 'bool': 'int'}.get(ty, ty)
+        r.instance(run.outcome == 'return' and run.value == (prom, True, prom), key, 'stmt.c:%s' % fn.get('line'),
+                   'expected the operand converted to %s to be evaluated and the case set to have that type; got %s %s' % (prom, run.outcome, run.value if run.outcome == 'return' else run.detail))
+    r.exhaustive = True
+
+
 def run(chk, tier):
     prog = facts.programs()['cproc-qbe']
     chk.guard('C15.abc', lambda: rule_orders(chk, prog, tier))
     chk.guard('C15.d', lambda: rule_static_escape(chk, prog, tier))
+    chk.guard('C15.e', lambda: rule_controlling(chk, prog, tier))
